@@ -71,3 +71,6 @@ use group::*;
 
 mod run;
 pub use run::*;
+
+#[cfg(slotted_egraphs_verif)]
+pub mod verif_hooks;
